@@ -89,6 +89,12 @@ CHECKS["C09"] = dict(
    note="go build and go/format are trusted; the gofmt finding is only matched when the file differs from its gofmt form solely by removed blank lines, in-line alignment and order inside the merged import block.",
    ref="DESIGN.md §5 C09")
 
+CHECKS["C05"] = dict(
+   technique="trace-checking monitor over generated routers: instrumented controller methods record the arguments they receive (JSONL event log, per-request ids in a header); an offline checker compares them with the values sent, computed through Go's own typed conversions; refusals checked by status and absence of a call event; thorough tier adds an 8-goroutine pass under the race detector",
+   text="Runtime monitoring of real generated code: 8 (thorough 80) compile-safe projects x 5 engines (gin, echo, mux, chi via ServeHTTP+httptest, fiber via app.Test), ~2000 request evaluations per quick run over >200 distinct (parameter-list shape x request class) cells: typical/boundary/zero values of every integer width, float extremes, URL-reserved and multibyte strings, wire-name aliases, query slices, enums, aliases, pointers present/absent, JSON and form bodies, context parameters (token set by a before-operation middleware), per-parameter omission, unconvertible/out-of-range values, validator violations, malformed bodies. Exploration only.",
+   note="Path values use canonical URL encoding and no '+' (echo/chi route on RawPath for over-escaped paths, fiber's UnescapePath turns '+' into a blank: engine matters); an absent optional parameter that carries a validator is not exercised (unstated).",
+   ref="DESIGN.md §5 C05, Appendix B")
+
 NOT_YET = {
 }
 ALL = ["C%02d" % i for i in range(1, 21)]
